@@ -88,7 +88,7 @@ def step (st : St) (toks : List String) : St × String :=
         else if op = "dec" then withHex rest (fun bs => showDec s (decode s bs))
         else if op = "ptr" then
           withHex rest (fun bs => match extent s bs with
-            | .ok n => s!"ok {n} {n}"
+            | .ok n => s!"ok {n} {n - (match s with | .disc d _ => d.length | _ => 0)}"
             | .error e => e.name)
         else if op = "owned" then withHex rest (fun bs => showView s (decode s bs))
         else if op = "view" then withHex rest (fun bs => showView s (viewTop .get s bs))
